@@ -8,6 +8,7 @@ mod c07;
 mod sys;
 mod c12;
 mod c16;
+mod c20;
 
 fn main() {
     ex::install_panic_hook();
@@ -24,6 +25,7 @@ fn main() {
         "c07" => c07::run(rest),
         "c12" => c12::run(rest),
         "c16" => c16::run(rest),
+        "c20" => c20::run(rest),
         other => {
             eprintln!("unknown command {other}");
             std::process::exit(2);
